@@ -2,6 +2,8 @@
 
 from __future__ import annotations
 
+import os
+
 import numpy as np
 
 from .. import gen, monitors
@@ -65,6 +67,14 @@ def cases(ctx):
         if func == "fixed_width_band_ci":
             kw = {"nb_points": None if rng.random() < 0.4 else int(rng.choice([3, 5, 10, 21, 50]))}
         sampler = str(rng.choice(["identity", "replacement", "single_pass", "dynamic", "by_label"]))
+        if i == 5 and getattr(ctx, "shard", 0) == 0 and not os.environ.get("VERIF_C16_NO_LARGE"):
+            # one large curve per run: the default configuration (1000 replicates) on a support of more than 8400 points - the
+            # replicate array of such a call is above 128 MiB, where an implementation might start to work in blocks; M-band still demands that
+            # exactly nb_samples samples are drawn and that every band row comes from those samples
+            n_ = int(rng.integers(4250, 4400))
+            yield {"pos": rng.normal(1, 1, n_), "neg": rng.normal(-1, 1, n_), "ep": 0, "en": 0, "sc": sc, "ec": ec, "kind": "gauss-large", "func": "roc_with_ci", "kw": {"nb_points": None},
+                   "sampler": "replacement", "bm": "quantile", "alpha": 0.05, "nb_samples": 1000, "x_axis": "fpr", "_seed": int(rng.integers(1 << 31))}
+            continue
         yield {"pos": pos, "neg": neg, "ep": ep, "en": en, "sc": sc, "ec": ec, "kind": kind, "func": func, "kw": kw, "sampler": sampler,
                "bm": str(rng.choice(["quantile", "bc", "bca"])), "alpha": float(rng.choice([0.05, 0.2, 0.5])),
                "nb_samples": int(rng.choice([3, 10, 25, 60])) if not big else 10, "x_axis": str(rng.choice(["fpr", "fnr", "tpr", "tnr"])),
